@@ -218,7 +218,7 @@ CLAIMS = {
         text="C16_replay: for every program, arguments and fuel on which the evaluator succeeds, the renderer receives one "
              "render_traps per static trap zone first and then exactly the translation of the executed event sequence, in order "
              "(one call per gate with zone/buffers, one per played path, one per member of a parallel group in order, nothing "
-             "for fill/measure); failing runs fail. What each path.visualizer implementation does with the renderer is a table "
+             "for fill/measure); failing runs fail. C16_paths_exact / C16_traps_first: the render_path calls are exactly the played paths in order and the render_traps calls come first and only first. What each path.visualizer implementation does with the renderer is a table "
              "regenerated on every run by executing every implementation against a recording renderer with sentinel operands; "
              "C16_dispatch_ok is decided over it. Tie: the real PathVisualizer with a recording renderer on generated programs vs "
              "the model, and vs the event log the event-logging spec interpreter obtains from the same compiled kernel.",
